@@ -1,4 +1,5 @@
-"""C49 reproduction (seed-agent observation, round 2; no rule decides it -- see notes/str2-u.md).
+"""C49-R7 reproduction (key `ext/mutable.py::Mutable.as_mutable.listen_for_type:installs-for-every-class`; seed-agent observation,
+round 2).
 
 Run:  cd /tmp && /venv/bin/python /verif/findings/C49_second_class_on_same_table_untracked.py
 
@@ -6,7 +7,12 @@ Run:  cd /tmp && /venv/bin/python /verif/findings/C49_second_class_on_same_table
 once-only flag stored PER COLUMN (`prop.expression.info["_ext_mutable_listener_applied"]`, added for issue #9676 so that
 inheriting mappers do not register twice).  A Column belongs to a Table, not to a class: a second, unrelated class mapped to
 the same Table finds the flag set and gets NO listeners -- its values are not coerced (plain dict), in-place changes never flag
-the parent, flush writes nothing.
+the parent, flush writes nothing.  The same happens to the ONLY class mapped to the Table after `clear_mappers()` + re-mapping
+(the flag survives on the Column).
+
+Minimal repair (findings/C49_second_class_on_same_table_untracked.fix.diff; verified on a scratch worktree: test/ext/test_mutable.py
+incl. test_no_duplicate_reg_w_inheritance (#9676) + test/orm/test_composites.py 349 passed): drop the per-Column flag and skip only
+attributes INHERITED from the parent mapper (those are covered by the parent's propagate=True listeners).
 """
 from sqlalchemy import JSON, Column, Integer, Table, create_engine
 from sqlalchemy.ext.mutable import MutableDict
@@ -44,5 +50,21 @@ for cls in (First, Second):
         got = dict(s.get(cls, pk).data)
         print(f"{cls.__name__}: stored {got}")
         ok = ok and got == {"a": 1, "b": 2}
+from sqlalchemy.orm import clear_mappers  # noqa: E402
+
+clear_mappers()
+
+
+class Third:
+    pass
+
+
+reg3 = registry(metadata=reg.metadata)
+reg3.map_imperatively(Third, t)
+configure_mappers()
+o = Third()
+o.data = {"a": 1}
+print(f"Third (mapped alone, after clear_mappers()): value type {type(o.data).__name__}")
+ok = ok and type(o.data).__name__ == "MutableDict"
 print("PASS" if ok else "FAIL: the second class mapped to the same Table is not change-tracked")
 raise SystemExit(0 if ok else 1)
